@@ -154,3 +154,64 @@ def assembled_packets(fl, sink: Sink, st) -> list:
                    for o in ops):
                 outs.append(ops)
     return outs
+
+
+def check_copy_methods(ctx, rule: str, class_quals: list) -> int:
+    """Copy-with-one-change methods of frozen dataclasses (`set_x`, `with_x`) must forward every other field unchanged.
+
+    A method counts as a copy method when it returns a construction of its own class (or `cls`/`replace`) and takes
+    at most one non-self parameter.  For each dataclass field f: the constructor receives `f=self.f`, except for fields
+    whose argument derives from the method's parameter.  Missing keywords fall back to the field default = lost value.
+    """
+    P = ctx.prog
+    n = 0
+    for q in class_quals:
+        ci = P.cls(q)
+        fields = [f for f, (ann, _) in ci.fields.items() if ann is not None]
+        for m in ci.methods.values():
+            if m.kind != "method" or not (m.name.startswith("set_") or m.name.startswith("with_")):
+                continue
+            params = m.params[1:]
+            if len(params) != 1:
+                continue
+            fl = ctx.flows.get(m)
+            for k, s, st in fl.exits:
+                if k != "return" or not isinstance(s.value, ast.Call):
+                    continue
+                tg = [t for t in P.call_targets(m, s.value, count=False) if isinstance(t, ClassInfo)]
+                if not tg or not (tg[0] is ci or ci in tg[0].mro() or tg[0] in ci.mro()):
+                    continue
+                n += 1
+                call = s.value
+                given = {}
+                tfields = [f for f, (ann, _) in tg[0].fields.items() if ann is not None]
+                allf = []
+                for c in reversed(tg[0].mro()):
+                    for f, (ann, _) in c.fields.items():
+                        if ann is not None and f not in allf:
+                            allf.append(f)
+                for i, a in enumerate(call.args):
+                    if i < len(allf):
+                        given[allf[i]] = a
+                for kw in call.keywords:
+                    if kw.arg:
+                        given[kw.arg] = kw.value
+                changed = []
+                for f in allf:
+                    if f not in given:
+                        ctx.ob(rule, m.short(), f"field:{f}", False,
+                               f"{m.name} builds a new {tg[0].name} without `{f}`: the copy silently resets {f} to its default",
+                               f"{m.module.rel}:{s.lineno}")
+                        continue
+                    x = pretty(unparse(fl.expand(given[f], st)))
+                    if x == f"self.{f}":
+                        ctx.ob(rule, m.short(), f"field:{f}", True, f"{f} forwarded unchanged", f"{m.module.rel}:{s.lineno}")
+                    elif params[0] in [nn.id for nn in ast.walk(fl.expand(given[f], st)) if isinstance(nn, ast.Name)]:
+                        changed.append(f)
+                    else:
+                        ctx.ob(rule, m.short(), f"field:{f}", False,
+                               f"{m.name} passes `{f}={x[:50]}`: neither the old value nor derived from the argument",
+                               f"{m.module.rel}:{s.lineno}")
+                ctx.ob(rule, m.short(), "changes-one-field", len(changed) == 1,
+                       f"{m.name} changes {changed} (exactly one field expected)", f"{m.module.rel}:{s.lineno}")
+    return n
